@@ -43,7 +43,9 @@ pub enum Dev {
     SdReplace(usize, Value),      // _sd is "str" / {} / null / [] / 5
     SdRefsArrayDisclosure(usize), // a 2-element disclosure referenced from _sd
     SdEntrySpelling(usize, u8),   // first entry respelled: 0 "=" appended, 1 standard base64 alphabet, 2 trailing space, 3 leading space, 4 "==" appended, 5 percent-encoded
+    SdOdd(usize, u8, u8),         // a string of non-digest shape (odd_shape) listed: mode 0 once (an unmatched entry), 1 twice, 2 once + as a placeholder in a root array, 3 once + in the root's _sd
     // ---- placeholder k
+    PhOdd(usize, u8, u8),          // an extra placeholder whose digest is a string of non-digest shape: mode 0 once, 1 twice
     PhExtraMember(usize),
     PhDigest(usize, Value),        // non-string digest
     PhRefsObjectDisclosure(usize), // a 3-element disclosure referenced from ...
@@ -62,9 +64,27 @@ pub enum Dev {
     DiscNameOfSibling(usize), // name := name of a visible sibling / another disclosure at the same level
     DiscNotPresented(usize),  // omitted from the presentation (well-formed)
     DiscText(usize, u8),      // 0: raw text not JSON, 1: not base64url
+    DiscEscapedKeys(usize),   // same JSON value, but every "_sd" / "..." key inside the text spelled with a \u escape (digest follows the text)
     // ---- list-level
+    PresentNone,              // every disclosure withheld (well-formed)
     PresentTwice(usize),
     Unreferenced,             // an extra disclosure nobody references
+}
+
+pub const ODD_SHAPES: u8 = 9;
+/// Strings that no SHA-256/base64url digest can equal.
+pub fn odd_shape(i: u8) -> String {
+    match i {
+        0 => String::new(),
+        1 => "x".into(),
+        2 => "A".repeat(42),
+        3 => format!("{}=", "A".repeat(43)),
+        4 => format!("{}+/", "A".repeat(41)),
+        5 => "a b".into(),
+        6 => "\u{e9}".into(),
+        7 => "A".repeat(44),
+        _ => "A".repeat(86),
+    }
 }
 
 pub fn respell(d: &str, mode: u8) -> String {
@@ -110,6 +130,7 @@ impl<'a> B<'a> {
         let mut dec = decoded;
         let mut text: Option<String> = None;
         let mut present = 1;
+        let mut escape_keys = false;
         for d in self.devs {
             match d {
                 Dev::DiscForm(i, v) if *i == k => dec = v.clone(),
@@ -138,13 +159,22 @@ impl<'a> B<'a> {
                     }
                 }
                 Dev::DiscNotPresented(i) if *i == k => present = 0,
+                Dev::PresentNone => present = 0,
+                Dev::DiscEscapedKeys(i) if *i == k => escape_keys = true,
                 Dev::PresentTwice(i) if *i == k => present = 2,
                 Dev::DiscText(i, 0) if *i == k => text = Some(b64e(b"this is not json")),
                 Dev::DiscText(i, _) if *i == k => text = Some("!!not*base64url!!".to_string()),
                 _ => {}
             }
         }
-        let s = text.unwrap_or_else(|| b64e(serde_json::to_string(&dec).unwrap().as_bytes()));
+        let s = text.unwrap_or_else(|| {
+            let mut t = serde_json::to_string(&dec).unwrap();
+            if escape_keys {
+                // a key is the only place where a quote is directly followed by the name and by `":`
+                t = t.replace("\"_sd\":", "\"\\u005fsd\":").replace("\"...\":", "\"\\u002e..\":");
+            }
+            b64e(t.as_bytes())
+        });
         for _ in 0..present {
             self.disclosures.push(s.clone());
         }
@@ -168,6 +198,7 @@ impl<'a> B<'a> {
                         ph.insert("...".into(), json!(dg));
                         let mut dup = false;
                         let mut unmatched = false;
+                        let mut odd: Vec<Value> = vec![];
                         for d in self.devs {
                             match d {
                                 Dev::PhExtraMember(i) if *i == k => {
@@ -187,6 +218,11 @@ impl<'a> B<'a> {
                                     ph.insert("...".into(), json!(respell(&dg, *mode)));
                                 }
                                 Dev::PhUnmatched(i) if *i == k => unmatched = true,
+                                Dev::PhOdd(i, shape, mode) if *i == k => {
+                                    for _ in 0..=(*mode).min(1) {
+                                        odd.push(json!({"...": odd_shape(*shape)}));
+                                    }
+                                }
                                 _ => {}
                             }
                         }
@@ -197,6 +233,7 @@ impl<'a> B<'a> {
                         if unmatched {
                             out.push(json!({"...": digest("decoy-element")}));
                         }
+                        out.extend(odd);
                     } else {
                         out.push(v);
                     }
@@ -246,6 +283,16 @@ impl<'a> B<'a> {
                     }
                     Dev::SdUnmatchedOnce(i) if *i == k => sd.push(json!(digest(&format!("decoy-{k}")))),
                     Dev::SdAddEntry(i, v) if *i == k => sd.push(v.clone()),
+                    Dev::SdOdd(i, shape, mode) if *i == k => {
+                        let o = json!(odd_shape(*shape));
+                        sd.push(o.clone());
+                        match mode {
+                            1 => sd.push(o),
+                            2 => self.root_zz.push(json!({"...": o})),
+                            3 => self.root_sd_extra.push(o),
+                            _ => {}
+                        }
+                    }
                     Dev::SdEntrySpelling(i, mode) if *i == k => {
                         if let Some(d0) = sd[0].as_str().map(str::to_string) {
                             sd[0] = json!(respell(&d0, *mode));
@@ -367,6 +414,11 @@ pub fn deviations(b: &Built) -> Vec<Dev> {
         for mode in 0..6u8 {
             v.push(Dev::SdEntrySpelling(k, mode));
         }
+        for shape in 0..ODD_SHAPES {
+            for mode in 0..4u8 {
+                v.push(Dev::SdOdd(k, shape, mode));
+            }
+        }
     }
     for k in 0..b.n_ph {
         v.push(Dev::PhExtraMember(k));
@@ -376,6 +428,11 @@ pub fn deviations(b: &Built) -> Vec<Dev> {
         v.push(Dev::PhRefsObjectDisclosure(k));
         v.push(Dev::PhDup(k));
         v.push(Dev::PhUnmatched(k));
+        for shape in 0..ODD_SHAPES {
+            for mode in 0..2u8 {
+                v.push(Dev::PhOdd(k, shape, mode));
+            }
+        }
         for mode in 0..6u8 {
             v.push(Dev::PhDigestSpelling(k, mode));
         }
@@ -410,11 +467,15 @@ pub fn deviations(b: &Built) -> Vec<Dev> {
         v.push(Dev::DiscDropLast(k));
         v.push(Dev::DiscNameOfSibling(k));
         v.push(Dev::DiscNotPresented(k));
+        v.push(Dev::DiscEscapedKeys(k));
         v.push(Dev::PresentTwice(k));
         v.push(Dev::DiscText(k, 0));
         v.push(Dev::DiscText(k, 1));
     }
     v.push(Dev::Unreferenced);
+    if b.n_disc > 0 {
+        v.push(Dev::PresentNone);
+    }
     v
 }
 
